@@ -164,7 +164,8 @@ func judge(id int, v *Vector) (Outcome, *TraceEvent) {
 		return o, ev
 	}
 	// what the spec predicts ignores the context flag of when conditions (the statement is silent on it)
-	opt := schemadump.Options{IgnoreAsParent: true}
+	// against the model the context of a when is compared where the model fixes it (augment: target node; own: the node)
+	optModel := schemadump.Options{IgnoreAsParent: true, ModelCtx: true}
 	add := func(m *Mism) {
 		if m != nil {
 			o.Mism = append(o.Mism, *m)
@@ -175,7 +176,7 @@ func judge(id int, v *Vector) (Outcome, *TraceEvent) {
 	}
 	if v.Verdict == "ok" && r.OK {
 		schemadump.Canon(v.Schema)
-		add(diffMism("model-vs-code", v.Schema, r.Dump, opt, ""))
+		add(diffMism("model-vs-code", v.Schema, r.Dump, optModel, ""))
 	}
 	if v.AltKind != "none" {
 		ra := scm.Compile(v.Alt, v.Feats, scm.Filter{Op: "none"})
@@ -198,7 +199,7 @@ func judge(id int, v *Vector) (Outcome, *TraceEvent) {
 			add(&Mism{Cmp: "filter-vs-model", Attr: "verdict", Want: "ok", Got: verdictOf(rf) + " " + short(rf.Err), Filter: fv.F.String()})
 		} else if v.Verdict == "ok" {
 			schemadump.Canon(fv.Schema)
-			add(diffMism("filter-vs-model", fv.Schema, rf.Dump, schemadump.Options{IgnoreAsParent: true}, fv.F.String()))
+			add(diffMism("filter-vs-model", fv.Schema, rf.Dump, schemadump.Options{IgnoreAsParent: true, ModelCtx: true}, fv.F.String()))
 		}
 	})
 	if len(o.Mism) > 0 {
